@@ -193,6 +193,8 @@ def check_C15(tier_, sd, consts_ok, consts_detail):
     for k in ebad[:5]: violations.append(mk("whole-file line kept vs consumed", e2e_cases[k], eimpl[k], emodel[k]))
     for k in cbad[:5]:
         violations.append(proj_violation("C15", "a continuation line was not treated as a continuation in one of the passes (file with a dependency: first pass collects dependencies)", cprojs[k], cimpl[k], cmodel[k]))
+    cv, ncv = chain3_violations("C15", "a multi-line directive ended by a directive line, and the text after it, are processed the same in every pass")
+    violations += cv
     for b in vmbad[:3]:
         violations.append({"found": False, "replay": {"property": "C15", "broken": "extracted evaluator disagrees with vm_compute", "detail": b}})
     kinds = collections.Counter(m.split(" ")[3] if m != "D -" else "-" for m in model)
@@ -692,9 +694,23 @@ def check_C03(tier_, sd, consts_ok, consts_detail):
             violations.append(proj_violation("C03", "the run reported success but the outputs %s do not exist (mode %s)" % (missing, "--needed" if q.mode else "build"), q, a, b))
         elif (a["verdict"], a["F"]) != (b["verdict"], b["F"]) and len(violations) < 5:
             violations.append(proj_violation("C03", "empty-output sources: verdict/bytes differ from the model", q, a, b, found=False))
+    # termination of the real process when a failure arrives while many other tasks are still queued or running (their results are
+    # never received by the coordinator: nobody may wait for them to be taken)
+    many = {"bad.txt.txtpp": "TXTPP#include no_such_file.txt\n"}
+    many.update({"s%02d.txt.txtpp" % i_: "-TXTPP#run sleep 0.1; printf 'x\\n'\n\ntext %d\n" % i_ for i_ in range(10)})
+    many.update({"q%03d.txtpp" % i_: "q %d\n" % i_ for i_ in range(90)})
+    names_ = ["bad.txt.txtpp"] + sorted(k_ for k_ in many if k_ != "bad.txt.txtpp")
+    ts = cli_session(many, [["-q", "-j", "1"] + names_, ["-q", "-j", "2"] + names_[:12], ["-q", "-j", "4", "."], ["-q", "-j", "3"] + names_[1:]])
+    term_ok = [ts[0][0] == 1, ts[1][0] == 1, ts[2][0] == 1, ts[3][0] == 0 and all((n_[:-6] in ts[3][1]) for n_ in names_[1:])]
+    if not all(term_ok) and len(violations) < 6:
+        violations.append({"found": True, "replay": {"property": "C03", "what": "the run did not end (or ended with the wrong status) when one file fails while many other tasks are queued or running",
+                           "steps": "txtpp -j 1 bad + 100 good files (bad first); -j 2 bad + 11; -j 4 . ; -j 3 the 100 good files (must succeed, 100 outputs)", "exits": [x[0] for x in ts], "steps_ok": term_ok}})
+    cov["cli_termination_steps_ok"] = term_ok
     cov["evaluations"] += len(dprojs) + len(odd) + len(empt); cov["aliased_input_cases"] = len(dprojs); cov["non_ascii_prefix_cases"] = len(odd); cov["empty_output_cases"] = len(empt)
     xcheck(cov, violations, "C03", dprojs, dm)
     return {"coverage": cov, "violations": violations}
+
+check_C03.needs_cli = True
 
 def check_C05(tier_, sd, consts_ok, consts_detail):
     projs, runs, mouts = run_sweep(tier_)
@@ -759,6 +775,29 @@ def check_C05(tier_, sd, consts_ok, consts_detail):
         elif (a["verdict"], sorted(trace_list(a))) != (b["verdict"], sorted(trace_list(b))) and len(violations) < 5:
             violations.append(proj_violation("C05", "two sources of one output: verdict or processed set differ from the model", q, a, b, found=False))
     cov["two_sources_one_output_runs"] = len(two)
+    # "a project without cycles never gets a circular-dependency failure": acyclic classes in which one file FAILS (a command exits
+    # non-zero) while others are waiting for their dependencies - the run fails, but not with the circular-dependency report;
+    # cyclic classes without any failing file - the failure IS the circular-dependency report
+    kind = []
+    for n_, (e_, i_) in enumerate(canon_graphs(3)):
+        cyc_ = any(can_reach_cycle(v, e_) for v in reachable_from(i_, e_))
+        for fl in ([None] if cyc_ else [0, 1, 2]):
+            if fl is not None and fl not in reachable_from(i_, e_): continue
+            q = digraph_project("kind%d_%s" % (n_, fl), NAMES3, e_, i_, fail=fl)
+            q.sched = [(n_ * 7 + t * 3 + (fl or 0)) % 5 for t in range(14)]; q.idle = (n_ % 3 == 0); q.expect_cyc = cyc_
+            kind.append(q)
+    complete_oracles(kind)
+    ki_, km_ = both(kind)
+    nk = collections.Counter()
+    for q, a, b in zip(kind, ki_, km_):
+        nk[(q.expect_cyc, a["verdict"], a["K"])] += 1
+        if not q.expect_cyc and a["K"] == "cyc" and len(violations) < 5:
+            violations.append(proj_violation("C05", "a project WITHOUT cycles (one file fails, others wait for their dependencies) was reported as a circular dependency", q, a, b))
+        elif q.expect_cyc and a["verdict"] == "err" and a["K"] != "cyc" and b["verdict"] == "err" and len(violations) < 5:
+            violations.append(proj_violation("C05", "a reachable cycle made the run fail, but not with the circular-dependency report", q, a, b, found=False))
+        elif a["verdict"] != b["verdict"] and len(violations) < 5:
+            violations.append(proj_violation("C05", "verdict differs from the model (failing file in an acyclic project / cyclic project)", q, a, b, found=False))
+    cov["failure_kind_runs"] = {"%s/%s/%s" % k_: v_ for k_, v_ in sorted(nk.items(), key=str)}
     xcheck(cov, violations, "C05", [q for (_, q, _) in runs[::131]], mouts[::131], limit=2)
     return {"coverage": cov, "violations": violations}
 
@@ -1114,6 +1153,25 @@ def check_C12(tier_, sd, consts_ok, consts_detail):
             p.files = [("/long.txt.txtpp", src.encode()), ("/inc.txt", ("i1" + other + "i2" + le).encode())]
             p.inputs = ["long.txt"]; p.sched = [0] * 4; p.srcs = ["/long.txt.txtpp"]
             longp.append(p)
+    dots = []
+    for k_, (n1, n2) in enumerate([("notes.q1.txtpp.md", "notes.2024.q1.txtpp.md"), ("a.b.txt.txtpp", "a.x.b.txt.txtpp"), ("r.v1.txtpp.c", "r.v1.v2.txtpp.c")]):
+        for flip in (0, 1):
+            q = Project("dots%d_%d" % (k_, flip)); e1, e2 = ("\n", "\r\n") if not flip else ("\r\n", "\n")
+            q.files = [("/" + n1, ("first" + e1 + "second" + e1).encode()), ("/" + n2, ("eins" + e2 + "zwei" + e2).encode())]
+            q.srcs = ["/" + n1, "/" + n2]; q.inputs = ["."]; q.sched = [flip, 0, 0, 0]
+            dots.append(q)
+    dti, dtm = both(dots, oracle=False)
+    for q, a, b in zip(dots, dti, dtm):
+        for s_ in q.srcs:
+            o_ = run_model_name(s_); data = a["F"].get(o_) if o_ else None
+            le = le_of_source(dict(q.files)[s_])
+            if a["verdict"] != "ok" or data is None or not le_uniform(le, data) or (le == b"\r\n") != (b"\r\n" in data):
+                if len(violations) < 5:
+                    violations.append(proj_violation("C12", "%s (output of %s, a name with several dots) is missing or does not use the line ending of its own source's first line" % (o_, s_), q, a, b,
+                                                     extra={"bytes": repr((data or b"")[:80])}))
+                break
+        else:
+            classes["dotted-names/ok"] += 1
     louts = [parse_obs(x) for x in run_impl([p.text() for p in longp])]
     for p, a in zip(longp, louts):
         le = le_of_source(dict(p.files)["/long.txt.txtpp"])
@@ -1195,8 +1253,33 @@ def check_C16(tier_, sd, consts_ok, consts_detail):
         exp = sub1(use, [(n1, v1), (n2, v2)])
         p = Project("cp%d" % k); p.files = [("/s.txt.txtpp", ("\n".join(L) + "\n").encode())]; p.inputs = ["s.txt"]; p.sched = [0] * 4
         capt.append(p); cmeta.append(exp)
+    # the same identity when an older, longer version of the output exists and the run is a --needed run (the comparison with the
+    # existing file must be exact, not a prefix test)
+    longer = []
+    for p in (projs[: 40 if tier_ == "quick" else 800] + esc[: 20 if tier_ == "quick" else 400]):
+        q = p.copy(); q.id = p.id + ".N"; q.mode = 1
+        srcb = q.files[0][1]
+        q.files = list(q.files) + [("/s.txt", b"\x00PLACEHOLDER")]
+        longer.append(q)
     oi, om = both(projs + esc + capt, oracle=False)
+    # plant "fresh output + an old tail" (and for every third case "fresh output without its final byte")
+    nproj = len(projs); lsteps = []
+    for q in longer:
+        base_id = q.id[:-2]
+        k_ = next(i_ for i_, p_ in enumerate(projs + esc) if p_.id == base_id)
+        fresh = oi[k_]["F"].get("/s.txt")
+        if oi[k_]["verdict"] != "ok" or fresh is None: continue
+        planted = fresh + b"old tail line\n" if len(lsteps) % 3 else (fresh[:-1] if fresh else b"x")
+        q.files = [f_ for f_ in q.files if f_[0] != "/s.txt"] + [("/s.txt", planted)]; q.fresh = fresh
+        lsteps.append(q)
+    li_, lm_ = both(lsteps, oracle=False)
     violations = []; nontriv = set()
+    for q, a, b in zip(lsteps, li_, lm_):
+        if a["verdict"] == "ok" and a["F"].get("/s.txt") != q.fresh and len(violations) < 5:
+            violations.append(proj_violation("C16", "--needed on top of an older version of the output: the text was not reproduced exactly (a tail or a missing byte of the old file survives)", q, a, b,
+                                             extra={"expected": short(q.fresh), "got": short(a["F"].get("/s.txt"))}))
+        elif (a["verdict"], a["F"]) != (b["verdict"], b["F"]) and len(violations) < 5:
+            violations.append(proj_violation("C16", "bytes differ from the model (--needed on an older output)", q, a, b, found=False))
     for k, p in enumerate(capt):
         a, b = oi[len(projs) + len(esc) + k], om[len(projs) + len(esc) + k]
         got = a["F"].get("/s.txt")
@@ -1236,7 +1319,7 @@ def check_C16(tier_, sd, consts_ok, consts_detail):
         else: nontriv.add(got)
         if (a["verdict"], a["F"]) != (b["verdict"], b["F"]) and len(violations) < 5:
             violations.append(proj_violation("C16", "bytes differ from the model", p, a, b, found=False))
-    cov = {"evaluations": len(projs) + len(esc) + len(capt), "distinct_nontrivial": len(nontriv), "captured_write_cases": len(capt),
+    cov = {"evaluations": len(projs) + len(esc) + len(capt) + len(lsteps), "distinct_nontrivial": len(nontriv), "captured_write_cases": len(capt), "needed_on_older_output_cases": len(lsteps),
            "rule": "(a) sources made only of lines the grammar does not recognise (look-alikes, blanks, non-ASCII), LF/CRLF, with/without final newline, option on/off: output must equal the lines re-joined; "
                    "(b) line sequences (directive look-alikes, blanks, tag names) escaped with a write directive, optionally with a stored tag around: output must equal the lines; distinct_nontrivial = distinct correct outputs",
            "identity_cases": len(projs), "write_roundtrip_cases": len(esc),
@@ -1299,6 +1382,8 @@ def check_C14(tier_, sd, consts_ok, consts_detail):
                            "case": cases[kk], "case_readable": decode_case(cases[kk]), "implementation": impl[kk], "model(spec)": model[kk]}})
     for j in pbad[:3]:
         violations.append(proj_violation("C14", "tag lifecycle in a whole file differs from the specification", projs[j], oi[j], om[j]))
+    cv, ncv = chain3_violations("C14", "a tag that captures the include of a generated file is stored and substituted once")
+    violations += cv
     outcomes = collections.Counter()
     for m in model:
         t = m.split(" ")
@@ -1453,7 +1538,7 @@ def escaping_temp_projects(rng, n, tag):
     return out
 
 def check_C07(tier_, sd, consts_ok, consts_detail):
-    rng = Rng(sd).fork("C07")
+    rng = Rng(sd).fork("C07"); violations = []
     n = 350 if tier_ == "quick" else 12000
     # sources may contain erroneous directives: clean must still succeed; build may fail (then only "never runs, removes only generated" is checked)
     projs = gen_batch(rng, n, modes=(0,), allow_errors=True, markers=True)
@@ -1491,6 +1576,20 @@ def check_C07(tier_, sd, consts_ok, consts_detail):
         p.srcs = [src]; p.deps = {src: []}; p.inputs = ["."]; p.recursive = True; p.mode = 2; p.sched = [0] * 6
         p.stats = collections.Counter({"clean-hard:project": 1})
         hard.append(p)
+    # names with TWO txtpp segments whose derived "output" is itself a source that really exists beside them: clean must not delete it
+    dbl = []
+    for k_, (odd_, victim) in enumerate([("notes.txtpp.txtpp.md", "notes.txtpp.md"), ("x.txtpp.md.txtpp", "x.txtpp.md"), ("foo.txtpp.txtpp", "foo.txtpp"), ("..txtpp.md", "../sub.md")]):
+        q = Project("dbl%d" % k_); q.dirs = ["/sub"]
+        q.files = [("/sub/" + odd_, b"odd\n"), ("/sub/" + victim if not victim.startswith("..") else "/sub.md", b"a real file that clean never generated\n"), ("/sub/plain.txt.txtpp", b"p\n"), ("/sub/plain.txt", b"p\n")]
+        q.srcs = ["/sub/" + odd_]; q.inputs = ["sub"]; q.mode = 2; q.sched = [0] * 6
+        dbl.append(q)
+    bi_, bm_ = both(dbl, oracle=False)
+    for q, c, m in zip(dbl, bi_, bm_):
+        vict = q.files[1][0]
+        if c["F"].get(vict) != q.files[1][1] and len(violations) < 5:
+            violations.append(proj_violation("C07", "clean deleted or changed %s, a file it never generated (the derived output name of %s)" % (vict, q.files[0][0]), q, c, m))
+        elif (c["verdict"], c["F"], c["U"]) != (m["verdict"], m["F"], m["U"]) and len(violations) < 5:
+            violations.append(proj_violation("C07", "clean differs from the model (sources with two txtpp segments)", q, c, m, found=False))
     # text that LOOKS like a temp directive but is the content of a write / run / temp / empty block (the documented escape): clean must not
     # take it for a directive and delete the hand-written file it names; a temp directive directly after another directive is still cleaned
     look = []
@@ -1505,7 +1604,7 @@ def check_C07(tier_, sd, consts_ok, consts_detail):
     ki, km = both(look, oracle=False)
     hi, hm = both(hard, oracle=False)
     ci, cm = both(cl, oracle=False)
-    violations = []; nrest = 0; nontriv = set()
+    nrest = 0; nontriv = set()
     for p, q, a, c, m in zip(projs, cl, bi, ci, cm):
         init = dict(p.files)
         if c["verdict"] != "ok" and len(violations) < 5:
@@ -1554,7 +1653,7 @@ def check_C07(tier_, sd, consts_ok, consts_detail):
         elif (c["verdict"], c["F"], c["U"]) != (m["verdict"], m["F"], m["U"]) and len(violations) < 5:
             violations.append(proj_violation("C07", "clean differs from the model (tree or touched set)", p, c, m, found=False))
         else: hard_ok += 1
-    cov = {"evaluations": 2 * len(projs) + len(hard) + len(nodel) + len(look), "distinct_nontrivial": len(nontriv), "clean_with_unhonourable_temp_directives_ok": hard_ok, "clean_after_outputs_deleted_ok": nodel_ok, "clean_lookalike_blocks_ok": look_ok,
+    cov = {"evaluations": 2 * len(projs) + len(hard) + len(nodel) + len(look) + len(dbl), "distinct_nontrivial": len(nontriv), "double_txtpp_name_cases": len(dbl), "clean_with_unhonourable_temp_directives_ok": hard_ok, "clean_after_outputs_deleted_ok": nodel_ok, "clean_lookalike_blocks_ok": look_ok,
            "rule": "generated projects (erroneous directives included, counting commands with marker files; plus projects whose temp targets lie in sub-directories, parent directories and outside the base directory) are built, then cleaned with the same inputs (whole tree, recursive); "
                    "checked on the implementation: clean succeeds, writes no marker (runs nothing), deletes no .txtpp, leaves every non-generated file byte-identical, and after a successful build restores the tree exactly; "
                    "distinct_nontrivial = distinct sets of generated paths that clean had to remove",
@@ -1647,6 +1746,26 @@ def check_C08(tier_, sd, consts_ok, consts_detail):
         q.inputs = ["."]; q.recursive = True; q.sched = [r.below(4) for _ in range(10)]; q.stats = collections.Counter({"late-read:project": 1})
         late.append(q)
     li, lm = both(late, oracle=False)
+    # a source that is refused (its output would be a txtpp name / not beside it) must leave NOTHING behind, or the next build of the same
+    # directory sees another tree: build three times, the tree after every build must be the same and contain no new source
+    refused = []
+    for k_, nm_ in enumerate(["notes.txtpp.txtpp", "n.txtpp.md.txtpp", "n.txtpp.txtpp.md", "..txtpp.md"]):
+        q = Project("refused%d" % k_); q.dirs = ["/w/d"]
+        q.files = [("/w/d/" + nm_, b"refused\n"), ("/w/d/ok.txt.txtpp", b"ok\n")] + ([("/w/d/ok.txt", b"stale")] if k_ % 2 else [])
+        q.base = "/w"; q.inputs = ["d"]; q.recursive = True; q.sched = [k_ % 2, 0, 0, 0]
+        refused.append(q)
+    r1, r1m = both(refused, oracle=False)
+    second = [follow(q, a, q.id + ".again") for q, a in zip(refused, r1)]
+    for q2, q in zip(second, refused): q2.mode = 0; q2.sched = q.sched
+    r2, r2m = both(second, oracle=False)
+    refused_bad = []
+    for q, a1, a2, b1 in zip(refused, r1, r2, r1m):
+        init = set(f_ for f_, _ in q.files)
+        made1 = sorted(f_ for f_, v_ in a1["F"].items() if v_ is not None and f_ not in init and f_ != "/w/d/ok.txt")
+        if made1 or a1["verdict"] != a2["verdict"] or a1["F"] != a2["F"]:
+            refused_bad.append(proj_violation("C08", "a refused source left files behind (%s) or building the same directory again gives another verdict/tree (%s then %s)" % (made1, a1["verdict"], a2["verdict"]), q, a1, b1))
+        elif (a1["verdict"], a1["F"]) != (b1["verdict"], b1["F"]):
+            refused_bad.append(proj_violation("C08", "refused source: differs from the model", q, a1, b1, found=False))
     base = built + [(p, a) for p, a in zip(failing, fi) if a["verdict"] == "err"] + [(p, a) for p, a, b in zip(late, li, lm) if a["verdict"] == "ok" and a["F"] == b["F"]]
     steps = []; meta = []
     for k, (p, a) in enumerate(base):
@@ -1671,6 +1790,7 @@ def check_C08(tier_, sd, consts_ok, consts_detail):
             nontriv.add((k, tuple(q.what)))
         if (a["verdict"], a["F"] if a["verdict"] == "ok" else None) != (b["verdict"], b["F"] if b["verdict"] == "ok" else None) and len(violations) < 5:
             violations.append(proj_violation("C08", "differs from the model", q, a, b, found=False))
+    violations += refused_bad[:3]
     killed, early, kbad = crash_histories(rng.fork("kill"), 25 if tier_ == "quick" else 400)
     for b in kbad[:3]:
         violations.append({"found": True, "replay": {"property": "C08", "what": "a build interrupted by SIGKILL was not repaired by building again", "detail": b,
@@ -1745,6 +1865,25 @@ def check_C09(tier_, sd, consts_ok, consts_detail):
                 violations.append(proj_violation("C09", "a normal build ends with `%s` but --needed with `%s` on the same tree" % (ib["verdict"], in_["verdict"]), e1[k_], in_, mn))
         elif ib["verdict"] == "ok" and ib["F"] != in_["F"] and len(violations) < 5:
             violations.append(proj_violation("C09", "--needed and a normal build of the same tree give different files", e1[k_], in_, mn))
+    # a file with TWO generated dependencies, on a tree without outputs (--needed writes an output only at the end of its task, so a
+    # final pass started too early finds nothing to include): every completion order, --needed must succeed like a build and give its bytes
+    two_ = []
+    for order in (("c.txt", "b.txt"), ("b.txt", "c.txt")):
+        for md in (1, 0):
+            q = Project("twodeps%s%d" % (order[0][0], md)); q.mode = md
+            q.files = [("/a.txt.txtpp", ("a top\n-TXTPP#include %s\n=TXTPP#include %s\na end\n" % order).encode()), ("/b.txt.txtpp", b"b text\n"), ("/c.txt.txtpp", b"c top\n-TXTPP#include b.txt\nc end\n")]
+            q.inputs = ["."]; q.sched = []
+            two_.append(q)
+    truns = enumerate_schedules(two_, max_per=80)
+    truns = truns + idle_variants(truns, 4)
+    tmo = [parse_obs(x) for x in run_model([q.text() for (_, q, _) in truns])]
+    tref = {}
+    for (k_, q, a), b in zip(truns, tmo):
+        tref.setdefault(k_ // 2, a)          # the --needed run with the all-zero schedule is the reference for both modes of that project
+        if (a["verdict"] != "ok" or a["F"] != tref[k_ // 2]["F"]) and len(violations) < 5:
+            violations.append(proj_violation("C09", "two dependencies, fresh tree, mode %s: under this completion order the run ends with `%s` / files differ from the other orders and from a normal build" % ("--needed" if q.mode else "build", a["verdict"]), q, a, b))
+        elif (a["verdict"], a["T"], a["F"]) != (b["verdict"], b["T"], b["F"]) and len(violations) < 5:
+            violations.append(proj_violation("C09", "two dependencies: trace/bytes differ from the model", q, a, b, found=False))
     ses = cli_session({"a.txt.txtpp": "x\n-TXTPP#temp t.tmp\n-body\ny\n"},
                       [["-q", "-N", "a.txt"], ["-q", "-N", "a.txt"], ["-q", "a.txt"], ["!write", "a.txt", b"stale"], ["-q", "--needed", "a.txt"], ["-q", "-N", "verify", "a.txt"]])
     m1, m2, m3 = ses[0][2], ses[1][2], ses[2][2]
@@ -1756,7 +1895,7 @@ def check_C09(tier_, sd, consts_ok, consts_detail):
         violations.append({"found": True, "replay": {"property": "C09", "what": "the binary's -N/--needed flag does not behave as documented", "steps_ok": cli_ok,
                            "steps": "-N; -N (mtimes must stay); build (output mtime changes, temp stays); tamper; --needed (updated)"}})
     cov = {"evaluations": len(steps) + ngen + len(ses) + 2 * len(errp), "distinct_nontrivial": len(nontriv), "cli_flag_steps_ok": cli_ok,
-           "build_vs_needed_pairs_with_errors": {"pairs": len(errp), "failing": nerr},
+           "build_vs_needed_pairs_with_errors": {"pairs": len(errp), "failing": nerr}, "two_dependency_schedules": len(truns),
            "rule": "generated projects x pre-states of the generated paths (absent / exact / prefix / extended / junk incl. non-UTF-8) x modes {needed, build, verify}; all mtimes pre-set to a sentinel; "
                    "checked on the implementation: needed = build byte for byte, correct outputs (needed) and correct temp files (all modes) keep inode and mtime, stale ones are updated; plus source edits; "
                    "distinct_nontrivial = distinct (project, pre-state shape) under --needed",
@@ -1819,6 +1958,25 @@ def check_C10(tier_, sd, consts_ok, consts_detail):
         if a["U"] != b["U"] and len(violations) < 5:
             violations.append(proj_violation("C10", "set of touched paths differs from the model: impl %s, model %s" % (a["U"], b["U"]), p, a, b, found=False))
         if a["U"]: nontriv.add((p.mode, tuple(a["U"])))
+    # sources whose derived output is not a regular file beside them (a stem `.`: the name would land in the PARENT directory; an output
+    # that is itself a txtpp name): refused in every mode, and the files such an output would hit are never touched
+    odd = []
+    for k_, nm_ in enumerate(["..txtpp.md", "..txtpp", "..txtpp.txtpp", "n.txtpp.txtpp", "n.txtpp.txtpp.md", "n.txtpp.md.txtpp"]):
+        for md in (0, 1, 2, 3):
+            q = Project("oddout%d_%d" % (k_, md)); q.dirs = ["/proj/docs"]
+            q.files = [("/proj/docs/" + nm_, b"hello from the odd source\n"), ("/proj/docs/ok.txt.txtpp", b"ok\n"), ("/proj/docs.md", b"decoy beside the directory\n"), ("/proj/docs", None) if False else ("/proj/keep.txt", b"keep\n"),
+                       ("/proj/docs/n.txtpp", b"a real source named like the odd output\n"), ("/proj/docs/n.txtpp.md", b"another real source\n"), ("/proj/docs/ok.txt", b"ok\n")]
+            q.base = "/proj"; q.inputs = [["docs"], ["docs/" + nm_], ["."]][k_ % 3]; q.recursive = True; q.mode = md; q.sched = [(k_ + t) % 3 for t in range(8)]
+            odd.append(q)
+    di_, dm_ = both(odd, oracle=False)
+    for q, a, b in zip(odd, di_, dm_):
+        init = dict(q.files)
+        hit = [f_ for f_ in ("/proj/docs.md", "/proj/keep.txt", "/proj/docs/n.txtpp", "/proj/docs/n.txtpp.md") if a["F"].get(f_) != init[f_] or f_ in a["U"]]
+        new_ = sorted(f_ for f_, v_ in a["F"].items() if v_ is not None and f_ not in init and not f_.startswith("/proj/docs/n") )
+        if (hit or [f_ for f_ in new_ if not f_.startswith("/proj/docs/")]) and len(violations) < 5:
+            violations.append(proj_violation("C10", "a source whose output would not be a file beside it: files outside its footprint were touched or created: %s %s" % (hit, new_), q, a, b))
+        elif (a["verdict"], a["F"], a["U"]) != (b["verdict"], b["F"], b["U"]) and len(violations) < 5:
+            violations.append(proj_violation("C10", "odd source names: verdict / tree / touched set differ from the model", q, a, b, found=False))
     # the binary: a subcommand fixes the mode whatever top-level flags precede it (verify and clean never write), and the decoys stay
     src = {"a.txt.txtpp": "x\n-TXTPP#temp t.tmp\n-body\ny\n", "a.txt": "stale", "keep.md": "decoy", "sub/b.txtpp": "b\n", "sub/b": "old b"}
     ses = cli_session(src, [["-N", "-q", "verify", "-q", "a.txt"], ["-N", "verify", "-q", "-r"], ["-N", "-n", "clean", "-q", "sub"], ["-N", "clean", "-q", "-r"], ["-N", "verify", "-q", "-r"]])
@@ -1833,7 +1991,7 @@ def check_C10(tier_, sd, consts_ok, consts_detail):
         violations.append({"found": True, "replay": {"property": "C10", "what": "the binary wrote or removed something a verify/clean subcommand must not touch (top-level -N/-n before the subcommand)",
                            "steps": "-N -q verify a.txt (stale: exit 1, nothing touched); -N verify -r; -N -n clean sub (removes sub/b only); -N clean -r (removes a.txt, creates nothing); -N verify -r (missing outputs: exit 1, creates nothing)",
                            "steps_ok": cli_ok, "exits": [x[0] for x in ses], "trees": [sorted(x[1]) for x in ses]}})
-    cov = {"evaluations": len(projs) + len(pre) + len(ses), "distinct_nontrivial": len(nontriv), "cli_subcommand_steps_ok": cli_ok,
+    cov = {"evaluations": len(projs) + len(pre) + len(ses) + len(odd), "distinct_nontrivial": len(nontriv), "cli_subcommand_steps_ok": cli_ok, "odd_output_name_runs": len(odd),
            "rule": "generated projects (successful and failing) x modes {build, needed, clean, verify} x input selections x recursive flag, half of them on an already built tree, with decoy files next to sources, in sub-directories and at near-miss names; "
                    "full-tree snapshot (bytes, inode, mtime) before/after: every touched path must be an output of a source of the project or a temp target, every other file keeps its bytes; clean creates nothing; verify touches no output; "
                    "the touched set must equal the model's event log; distinct_nontrivial = distinct (mode, touched set)",
@@ -1923,6 +2081,8 @@ def check_C11(tier_, sd, consts_ok, consts_detail):
         if (a["verdict"], a["F"], sorted(trace_list(a))) != (b["verdict"], b["F"], sorted(trace_list(b))) and len(violations) < 5:
             violations.append(proj_violation("C11", "the set of processed sources (task trace) / the names of the outputs / the verdict differ from the specification (Run.resolve_inputs, scan_dir, Path.remove_txtpp)", p, a, b))
         if made: nontriv.add((tuple(p.inputs), tuple(made)))
+    cv, ncv = chain3_violations("C11", "every required source is processed to completion")
+    violations += cv[: max(0, 6 - len(violations))]
     for kk in nbad[:5]:
         violations.append({"found": True, "replay": {"property": "C11", "what": "is_txtpp_file / remove_txtpp differ from the specification (props/C11.v)", "case": ncases[kk],
                            "name": names[kk], "implementation": ni[kk], "model(spec)": nm[kk]}})
@@ -1962,6 +2122,34 @@ def run_model_name(path):
         _NAME_CACHE[path] = None if o[2] == "-" else "/" + unhx(o[2]).decode()
     return _NAME_CACHE[path]
 
+
+
+# ------------------------------------------------------------------ a chain of three generated files under every completion order
+def chain3_violations(pid, what):
+    """top includes mid.txt (captured by a tag), mid runs a multi-line command and then includes leaf.txt, leaf is plain; whole directory
+    and single-file inputs; EVERY completion order through the scheduling hooks (with and without idle polls): outputs must be the
+    one-file-at-a-time result and equal the model's"""
+    files = [("/d/top.txt.txtpp", b"top start\n-TXTPP#tag MID\n=TXTPP#include mid.txt\n[MID]\ntop end\n"),
+             ("/d/mid.txt.txtpp", b"// TXTPP#run printf 'mid-header\\n'\n//   \nTXTPP#include leaf.txt\nmid end\n"),
+             ("/d/leaf.txt.txtpp", b"-TXTPP#tag L\n=TXTPP#write CCC\nleaf L\n")]
+    projs = []
+    for k_, (inp, rec) in enumerate([(["d"], False), (["d/top.txt"], False), (["d/mid.txt", "d/top.txt.txtpp", "d/leaf.txt"], False), (["."], True)]):
+        q = Project("chain%d" % k_); q.files = list(files); q.inputs = inp; q.recursive = rec; q.sched = []
+        projs.append(q)
+    complete_oracles(projs)
+    runs = enumerate_schedules(projs, max_per=60)
+    runs = runs + idle_variants(runs, 3)
+    mouts = [parse_obs(x) for x in run_model([q.text() for (_, q, _) in runs])]
+    out = []; ref = {}
+    for (k, q, a), b in zip(runs, mouts):
+        if k not in ref: ref[k] = a           # the first run of a project (the all-zero schedule) is the reference: every other order must agree with it
+        r0 = ref[k]
+        if (a["verdict"] != "ok" or a["F"] != r0["F"]) and len(out) < 3:
+            out.append(proj_violation(pid, "%s: a chain of three generated files (top <- mid <- leaf): under this completion order the run ends with `%s`%s / files %s differ from what another order gives"
+                                      % (what, a["verdict"], " (reported as a circular dependency)" if a["K"] == "cyc" else "", sorted(o_ for o_ in set(a["F"]) | set(r0["F"]) if a["F"].get(o_) != r0["F"].get(o_))), q, a, b))
+        elif (a["verdict"], a["T"], a["F"]) != (b["verdict"], b["T"], b["F"]) and len(out) < 3:
+            out.append(proj_violation(pid, "%s: chain of three generated files: trace/bytes differ from the model" % what, q, a, b, found=False))
+    return out, len(runs)
 
 # ------------------------------------------------------------------ the real binary (flag mapping of main.rs)
 def cli_session(files, steps, dirs=()):
@@ -2035,8 +2223,20 @@ def check_C17(tier_, sd, consts_ok, consts_detail):
                     p.inputs = ["/".join([".."] * (len(bparts) - i) + sparts[i:])]
                     p.sched = [0] * 6
                     projs.append(p); meta.append((src, base, cwd, status_fail))
+    dupd = []
+    for k_, inp in enumerate([[".", "sub"], ["sub", "sub"], [".", "."], ["sub", ".", "sub/deep"]]):
+        for md in (0, 3):
+            q = Project("dupdir%d_%d" % (k_, md)); q.dirs = ["/sub/deep"]
+            q.files = [("/fast.txt.txtpp", b"fast\n"), ("/sub/slow.txt.txtpp", b"-TXTPP#run printf 'partial\\n'; exit 3\n\nend\n"), ("/sub/deep/x.txtpp", b"x\n"),
+                       ("/fast.txt", b"fast\n"), ("/sub/slow.txt", b"partial\nend\n"), ("/sub/deep/x", b"x\n")]
+            q.inputs = inp; q.recursive = True; q.mode = md; q.idle = True; q.sched = [(k_ + 2 * t) % 4 for t in range(14)]
+            dupd.append(q)
+    ui_, um_ = both(dupd)
     oi, om = both(projs)
     violations = []; known = collections.Counter(); nontriv = set(); ok_file = 0
+    for q, a, b in zip(dupd, ui_, um_):
+        if a["verdict"] != "err" and len(violations) < 5:
+            violations.append(proj_violation("C17", "a command with a non-zero exit status did not fail the run (directories named several times, mode %s)" % ("verify" if q.mode == 3 else "build"), q, a, b))
     for p, a, b, (src, base, cwd, fail) in zip(projs, oi, om, meta):
         out = gen.out_name(src)
         srcdir = src.rsplit("/", 1)[0] or "/"
@@ -2221,6 +2421,20 @@ def check_C18(tier_, sd, consts_ok, consts_detail):
         open(os.path.join(d, "big.txt.txtpp"), "wb").write(b"top\n-TXTPP#run head -c 300000 /dev/zero | tr '\\0' x\n\nend\n")
         open(os.path.join(d, "err.txt.txtpp"), "wb").write(b"top\n-TXTPP#run head -c 300000 /dev/zero | tr '\\0' e >&2; printf ok\n\nend\n")
         open(os.path.join(d, "fail.txt.txtpp"), "wb").write(b"top\n-TXTPP#run head -c 300000 /dev/zero | tr '\\0' e >&2; head -c 100000 /dev/zero | tr '\\0' o; exit 3\n\nend\n")
+        # a failing file among many: the process must end (exit 1), whatever the thread count
+        os.makedirs(os.path.join(d, "many"))
+        open(os.path.join(d, "many", "000bad.txt.txtpp"), "wb").write(b"TXTPP#include missing.txt\n")
+        for i_ in range(150): open(os.path.join(d, "many", "f%03d.txtpp" % i_), "wb").write(b"f\n")
+        for thr in ("1", "4"):
+            try:
+                r = subprocess.run([CLI, "-q", "-j", thr, "000bad.txt.txtpp"] + ["f%03d.txtpp" % i_ for i_ in range(150)], cwd=os.path.join(d, "many"), stdout=subprocess.DEVNULL, stderr=subprocess.DEVNULL, timeout=30)
+                rc = r.returncode
+            except subprocess.TimeoutExpired:
+                rc = "timeout"
+            cli.append(("one failing file + 150 others -j " + thr, rc))
+            if rc != 1:
+                violations.append({"found": True, "replay": {"property": "C18", "what": "txtpp -j %s on one failing file followed by 150 trivial ones ended with %s (expected exit 1)" % (thr, rc),
+                                   "how": "000bad.txt.txtpp = `TXTPP#include missing.txt`, f000..f149.txtpp = `f`; all named on the command line, the failing one first"}})
         for args, want in ((["big.txt"], 0), (["-N", "big.txt"], 0), (["verify", "big.txt"], 0), (["err.txt"], 0), (["fail.txt"], 1), (["clean", "big.txt", "err.txt"], 0)):
             try:
                 r = subprocess.run([CLI, "-q"] + args, cwd=d, stdout=subprocess.DEVNULL, stderr=subprocess.DEVNULL, timeout=30)
@@ -2284,6 +2498,7 @@ def check_C04(tier_, sd, consts_ok, consts_detail):
                     p.files = sorted(fm.items())
                     required = reachable_from(p.input_idx, edges)
                     p.sched = [r.below(5) for _ in range(20)]
+                    p.idle = (k % 3 == 0)          # the coordinator also polls an empty queue before every completion: a failure of the task still in flight must not be lost
                     if fault == "verify-mismatch":
                         p.step2 = True
                     projs.append(p); meta.append((fault, pos, pos in required, edges))
@@ -2313,6 +2528,21 @@ def check_C04(tier_, sd, consts_ok, consts_detail):
         if a["verdict"] != b["verdict"] and len(violations) < 5:
             violations.append(proj_violation("C04", "verdict differs from the model (fault %s at %s)" % (fault, names[pos]), p, a, b, found=(req and a["verdict"] == "ok")))
         nontriv.add((fault, pos, tuple(map(tuple, edges))))
+    # the failing file under EVERY completion order (capped), with the coordinator also polling an empty queue before each completion:
+    # wherever the failure sits and whichever task is the last one in flight, the run fails
+    fsw = []
+    for p, (fault, pos, req, edges) in zip(projs, meta):
+        if fault == "failing-command" and edges and req and not getattr(p, "step2", False):
+            q = p.copy(); q.id = p.id + ".sw"; q.idle = True; q.sched = []; fsw.append(q)
+            # and with EVERY file requested, so that a dependency can be finished before its depender's first pass is looked at
+            q2 = q.copy(); q2.id = p.id + ".swall"; q2.inputs = [n_.lstrip("/") for n_ in names]; fsw.append(q2)
+    fruns = enumerate_schedules(fsw, max_per=(25 if tier_ == "quick" else 200))
+    fmo = [parse_obs(x) for x in run_model([q.text() for (_, q, _) in fruns])]
+    for (k_, q, a), b in zip(fruns, fmo):
+        if a["verdict"] == "ok" and len(violations) < 5:
+            violations.append(proj_violation("C04", "FALSE SUCCESS under one completion order (with idle polls of the coordinator): a required file fails but the run reported success", q, a, b))
+        elif a["verdict"] != b["verdict"] and len(violations) < 5:
+            violations.append(proj_violation("C04", "verdict differs from the model under one completion order", q, a, b, found=False))
     # sources whose LAST item produces no text (a closing empty directive, a temp block, only empty directives): the end-of-file
     # work - the verify "nothing left over" test, the --needed compare-and-write - must still happen
     tails = []
@@ -2390,7 +2620,8 @@ def check_C04(tier_, sd, consts_ok, consts_detail):
         violations.append({"found": True, "replay": {"property": "C04", "what": "FALSE SUCCESS: `txtpp [flags] verify` on a tree with a tampered output did not fail, or changed a file",
                            "steps": "verify; -q verify -j 1; -N verify; --needed -q verify root.txt; -N -n verify leaf.txt", "steps_ok": vs_ok, "exits": [x[0] for x in vs],
                            "leaf.txt_after_each": [short(x[1].get("leaf.txt")) for x in vs]}})
-    cov = {"evaluations": len(projs) + len(firsts) + len(cli) + len(tails) + len(vs), "distinct_nontrivial": len(nontriv), "sources_ending_without_text": len(tails), "cli_verify_steps_ok": vs_ok,
+    cov = {"evaluations": len(projs) + len(firsts) + len(cli) + len(tails) + len(vs) + len(fruns), "distinct_nontrivial": len(nontriv), "sources_ending_without_text": len(tails), "cli_verify_steps_ok": vs_ok,
+           "failing_file_schedules_with_idle_polls": len(fruns),
            "rule": "fault matrix: {prefix-less multi-line directive, failing command, missing include, include of a directory, output path occupied by a directory, temp target is a directory, temp target ending in .txtpp, "
                    "unused tag, tag while listening, invalid UTF-8 line, verify mismatch} x position {root, middle, leaf, unrelated file} x graph shape {chain, diamond, two components, independent} x random controlled schedule, "
                    "through the library; the binary under real OS faults (output -> /dev/full small and large, RLIMIT_FSIZE with SIGXFSZ ignored, read-only directory); "
